@@ -93,6 +93,15 @@ def gen_three():
         yield [[list(i) for i in seq]]
 
 
+def gen_three_delete():
+    """3-item files over names A, B in which `delete` occurs: the orders in which a delete, the entry it hides and the
+    base link between the two classes can be read (delete first, entry arriving later through a re-opened base, ...)."""
+    red = reduced_items(("A", "B"))
+    for seq in itertools.product(red, repeat=3):
+        if any(i[0] == "class" and i[3] == "delx" for i in seq):
+            yield [[list(i) for i in seq]]
+
+
 def gen_two_files():
     core = core_items()
     for a, b in itertools.product(core, repeat=2):
@@ -470,6 +479,8 @@ def features(files):
 def spaces(tier):
     if tier == "quick":
         return [Space("one-file", gen(2, 1), check, variant="asan", describe="one file with <=2 top-level items"),
+                Space("one-file-3-items-delete", gen_three_delete, check_fast, variant="fast",
+                      describe="one file with 3 top-level items (names A, B; reduced alphabet) of which at least one holds `delete x;`: all read orders of delete / definition / base link"),
                 ]
     return [Space("one-file", gen(2, 1), check, variant="asan", describe="one file with <=2 top-level items over the full item alphabet"),
             Space("one-file-3-items", gen_three, check_fast, variant="fast", describe="one file with 3 top-level items over the reduced alphabet (bodies: value, array, append, delete, nested classes inheriting; all base kinds)"),
